@@ -589,6 +589,57 @@ func (o *Oracle) report(e Ent, by *Inc, how string) {
 	}
 	w.stats.Commits++
 	o.checkMajority(e, by, how)
+	o.checkProtected(e, by, how)
+}
+
+// checkProtected (C03): a committed entry is permanent because no server that lacks it can win an
+// election: every voter that holds it (a majority) has a strictly more up-to-date log than any
+// server that does not. The loss itself needs a further unlucky election and is rare; the state in
+// which permanence depends on luck is visible at once: some voter S does not hold e, yet a majority
+// of the voters (S included) have logs that are not ahead of S's, so S can collect their votes and,
+// as leader, overwrite e. Sound for a fixed membership (argument in DESIGN.md §7 C03); runs in
+// which a configuration entry was ever stored are not judged by this rule.
+func (o *Oracle) checkProtected(e Ent, by *Inc, how string) {
+	w := o.w
+	if o.isEpochBase(e.Index) || len(o.epochs) > 0 {
+		return
+	}
+	for _, r := range o.cfgs {
+		if r.idx > 1 {
+			return // membership changed (or is changing): the fixed-membership argument does not apply
+		}
+	}
+	vs := voters(o.initCfg)
+	if len(vs) == 0 {
+		return
+	}
+	for _, sid := range vs {
+		sn := w.nodeByID(sid)
+		if sn == nil || sn.disk.holds(e) {
+			continue
+		}
+		si, st := lastOfDisk(sn.disk)
+		notAhead := 0
+		var who []string
+		for _, vid := range vs {
+			vn := w.nodeByID(vid)
+			if vn == nil {
+				continue
+			}
+			vi, vt := lastOfDisk(vn.disk)
+			if vn == sn || vt < st || (vt == st && vi <= si) {
+				notAhead++
+				who = append(who, string(vid))
+			}
+		}
+		if notAhead*2 > len(vs) {
+			v := w.violate("C03", "C03/committed-entry-unprotected", "entry (%d, term %d) is reported committed by %s via %s, but %s does not hold it and its log (last entry %d, term %d) is at least as up to date as those of %s: it can be elected and overwrite the entry",
+				e.Index, e.Term, by.tag, how, sid, si, st, strings.Join(who, ","))
+			v.Facts["reporter_term_minus_entry_term"] = fmt.Sprint(int64(o.ghost[e.Index].cterm) - int64(e.Term))
+			return
+		}
+	}
+	w.stats.probe("committed_entry_protected_checked")
 }
 
 // candidateConfigs: configurations under which e may legitimately have been committed.
